@@ -367,6 +367,42 @@ def empty_states():
     save("empty_states", ["C01", "C02", "C03", "C05", "C07", "C08", "C09", "C13"], steps)
 
 
+def revert_content():
+    """contents whose blob is already in the store: an edit taken back to an earlier version, two files exchanging their
+    contents, a copy of another file - the staged id must follow the file's current bytes every time"""
+    steps = head()
+    steps.append(w("notes.txt", "version one\n"))
+    steps.append(w("x", "1\n"))
+    steps.append(w("y", "2\n"))
+    steps.append({"ev": "add", "paths": ["."]})
+    steps.append({"ev": "commit", "msg": "one"})
+    steps.append(w("notes.txt", "version two\n"))
+    steps.append({"ev": "add", "paths": ["notes.txt"]})
+    steps.append({"ev": "lsfiles"})
+    steps.append(w("notes.txt", "version one\n"))           # taken back
+    steps.append({"ev": "add", "paths": ["notes.txt"]})
+    steps.append({"ev": "lsfiles"})
+    steps.append({"ev": "status"})
+    steps.append(w("x", "2\n"))                               # x and y exchange their contents
+    steps.append(w("y", "1\n"))
+    steps.append({"ev": "add", "paths": ["x", "y"]})
+    steps.append({"ev": "lsfiles"})
+    steps.append({"ev": "commit", "msg": "swapped"})
+    steps.append({"ev": "status"})
+    steps.append(w("copy", "version one\n"))                  # a copy of another file
+    steps.append(w("notes.txt", "version two\n"))
+    steps.append({"ev": "add", "paths": ["."]})
+    steps.append({"ev": "commit", "msg": "three"})
+    steps.append(w("notes.txt", "version one\n"))
+    steps.append({"ev": "status"})
+    steps.append({"ev": "add", "paths": ["notes.txt"]})
+    steps.append({"ev": "commit", "msg": esc("back again")})        # same tree as "swapped" plus copy
+    steps.append({"ev": "log", "n": 4})
+    steps.append({"ev": "reset", "mode": "hard", "arg": esc("HEAD@{1}")})
+    steps.append({"ev": "status"})
+    save("revert_content", ["C02", "C04", "C07", "C13", "C14", "C01"], steps)
+
+
 if __name__ == "__main__":
     name_lengths()
     big_index()
@@ -379,3 +415,4 @@ if __name__ == "__main__":
     content_sizes()
     reflog_100()
     empty_states()
+    revert_content()
